@@ -35,10 +35,11 @@ def keyEpoch : Bytes := [101, 112, 111, 99, 104]                  -- "epoch"
 def keyRootCid : Bytes := [114, 111, 111, 116, 67, 105, 100]      -- "rootCid"
 def keyNetwork : Bytes := [110, 101, 116, 119, 111, 114, 107]     -- "network"
 
-/-- result of reading a little-endian uint64 out of a value (`binary.LittleEndian.Uint64` indexes `b[7]`) -/
+/-- result of reading a little-endian uint64 out of a value: `Meta.GetUint64` answers `(0, false)` and
+    `getDefaultMetadata` an error for a value shorter than 8 bytes (fix 1e2c254; `b[7]` panicked before) -/
 inductive U64 where
   | absent
-  | panic            -- value shorter than 8 bytes: index out of range
+  | invalid          -- value shorter than 8 bytes: not a uint64
   | val (n : Nat)
 deriving DecidableEq, Repr
 
@@ -46,7 +47,7 @@ deriving DecidableEq, Repr
 def getUint64 (m : KVs) (key : Bytes) : U64 :=
   match get m key with
   | none => .absent
-  | some v => if v.length < 8 then .panic else .val (unle (v.take 8))
+  | some v => if v.length < 8 then .invalid else .val (unle (v.take 8))
 
 /-- the identity a writer records -/
 structure Ident where
